@@ -19,9 +19,10 @@ import os
 
 from ..extract import HEADER, Src, lean_list, lean_str
 from ..pyexpr import Untranslatable, to_lean
-from ..pystmt_text import Program
+from ..pystmt_text import CastProgram, Program
 
 PINNED_TEXT_BRANCH = os.path.join(os.path.dirname(os.path.abspath(__file__)), "c08_IsoText.pinned.lean")
+PINNED_CASTS = os.path.join(os.path.dirname(os.path.abspath(__file__)), "c08_IsoCast.pinned.lean")
 
 PIN_SLICES = [
     [[0, 4], [5, 7], [8, 10]],
@@ -271,6 +272,40 @@ def generate(o):
             lines.append(" ".join(ast.unparse(st).split()))
         return lines
 
+    def cast_programs():
+        """parse_date / parse_time / parse_timestamp of orso/types.py, statement by statement (CastProgram): the Lean programs
+        `Gen.IsoCast.parseDate / parseTime / parseTimestamp` that `Iso.cast` runs."""
+        tys = Src("orso/types.py")
+        return "".join(CastProgram(n, tys.func(f)).lean() for f, n in (("parse_date", "parseDate"), ("parse_time", "parseTime"), ("parse_timestamp", "parseTimestamp")))
+
+    try:
+        pinned_casts = open(PINNED_CASTS).read()
+    except OSError:
+        pinned_casts = ""
+    cp = o.item("iso.cast_programs", cast_programs, pinned_casts)
+    o.files["IsoCast.lean"] = HEADER + "import OrsoVerif.Model.IsoCastPrim\nnamespace Gen.IsoCast\nopen _root_.Iso\n\n" + cp + "end Gen.IsoCast\n"
+
+    def cast_table():
+        """Which function the DATE / TIMESTAMP / TIME entries of ORSO_TO_PYTHON_PARSER name, and the glue of OrsoTypes.parse."""
+        tys = Src("orso/types.py")
+        tab = None
+        if tys.tree is None:
+            raise KeyError("orso/types.py does not parse")
+        for n in tys.tree.body:
+            tgt = n.target if isinstance(n, ast.AnnAssign) else (n.targets[0] if isinstance(n, ast.Assign) and len(n.targets) == 1 else None)
+            if isinstance(tgt, ast.Name) and tgt.id == "ORSO_TO_PYTHON_PARSER" and isinstance(n.value, ast.Dict):
+                tab = n.value
+        if tab is None:
+            raise KeyError("ORSO_TO_PYTHON_PARSER")
+        ent = {ast.unparse(k): ast.unparse(v) for k, v in zip(tab.keys, tab.values)}
+        glue = " ".join(" ".join(ast.unparse(st).split()) for st in tys.func("parse", "OrsoTypes").body
+                        if not (isinstance(st, ast.Expr) and isinstance(st.value, ast.Constant)))
+        return [[k, ent["OrsoTypes." + k]] for k in ("DATE", "TIMESTAMP", "TIME")] + [["parse", glue]]
+
+    PIN_TABLE = [["DATE", "parse_date"], ["TIMESTAMP", "parse_timestamp"], ["TIME", "parse_time"],
+                 ["parse", "if value is None: return None return ORSO_TO_PYTHON_PARSER[self.value](value, **kwargs)"]]
+    ct = o.item("iso.cast_table", cast_table, PIN_TABLE)
+
     disp = o.item("iso.dispatch", dispatch, PIN_DISPATCH)
 
     try:
@@ -333,6 +368,8 @@ def generate(o):
     t += "def slicesMin : List (Nat × Nat) := %s\n" % lean_list(sl[2], pair)
     t += "/-- bodies of parse_date / parse_time / parse_timestamp (orso/types.py), string constants blanked; the TIME cast is not part of\nC08's statement: `parseTimeBody` is recorded for information and is not mentioned by any theorem -/\n"
     t += "def parseDateBody : String := %s\ndef parseTimeBody : String := %s\ndef parseTimestampBody : String := %s\n" % tuple(lean_str(x) for x in cb)
+    t += "/-- the functions the DATE / TIMESTAMP / TIME entries of ORSO_TO_PYTHON_PARSER name, and the body of OrsoTypes.parse -/\n"
+    t += "def castTable : List (String × String) := %s\n" % lean_list(ct, lambda p: "(%s, %s)" % (lean_str(p[0]), lean_str(p[1])))
     t += "/-- decorators, signature and the statements of parse_iso before the string branch (normalised source text) -/\n"
     t += "def dispatch : List String := %s\n" % lean_list(disp, lean_str)
     t += "end Gen.Iso\n"
